@@ -164,7 +164,12 @@ Lift2(f(_, _), x, y) ==
 
 RPow(b, e) ==     \* rational base b, rational exponent e (both normalised)
     IF e[2] = 1 THEN
-        (IF e[1] >= 0 THEN SQPowN(b, e[1])
+        (IF Abs(e[1]) > 62 THEN      \* nothing but 0, 1, -1 survives such a power within 32 bits
+            (IF b[1] = 0 THEN (IF e[1] > 0 THEN RQ(QZero) ELSE RUndef)
+             ELSE IF b = QOne THEN RQ(QOne)
+             ELSE IF b = <<-1, 1>> THEN (IF e[1] % 2 = 0 THEN RQ(QOne) ELSE RQ(<<-1, 1>>))
+             ELSE RIrr)
+         ELSE IF e[1] >= 0 THEN SQPowN(b, e[1])
          ELSE IF b[1] = 0 THEN RUndef ELSE SQPowN(QInv(b), -e[1]))
     ELSE IF b[1] < 0 THEN RUndef
     ELSE IF b[1] = 0 THEN (IF e[1] > 0 THEN RQ(QZero) ELSE RUndef)
@@ -173,6 +178,11 @@ RPow(b, e) ==     \* rational base b, rational exponent e (both normalised)
         (IF e[1] >= 0 THEN SQPowN(QSqrt(b), e[1]) ELSE SQPowN(QInv(QSqrt(b)), -e[1]))
     ELSE RIrr
 RDiv(a, b) == IF b[1] = 0 THEN RUndef ELSE SQMul(a, QInv(b))
+(* division of results: an exact zero divisor is undefined whatever the numerator is *)
+RDivR(x, y) == IF x.st = "undef" \/ y.st = "undef" THEN RUndef
+               ELSE IF y.st = "q" /\ y.q[1] = 0 THEN RUndef
+               ELSE IF x.st = "irr" \/ y.st = "irr" THEN RIrr
+               ELSE RDiv(x.q, y.q)
 
 RECURSIVE EvalQR(_, _)
 EvalQR(t, env) ==
@@ -185,7 +195,7 @@ EvalQR(t, env) ==
                         ELSE IF t.op = "add" THEN Lift2(SQAdd, F(i - 1), vals[i])
                         ELSE Lift2(SQMul, F(i - 1), vals[i])
             IN  F(Len(vals))
-      [] t.op = "div" -> Lift2(RDiv, EvalQR(t.args[1], env), EvalQR(t.args[2], env))
+      [] t.op = "div" -> RDivR(EvalQR(t.args[1], env), EvalQR(t.args[2], env))
       [] t.op = "pow" -> Lift2(RPow, EvalQR(t.args[1], env), EvalQR(t.args[2], env))
       [] OTHER ->
             LET x == EvalQR(t.args[1], env) IN
